@@ -1089,7 +1089,10 @@ func (r *replicateChannelHandler) RemoveCollection(collectionID int64) {
 	delete(r.collectionRecords, collectionID)
 	delete(r.collectionSeekPositions, collectionID)
 	if collectionRecord != nil {
-		delete(r.collectionNames, collectionRecord.CollectionName)
+		// the collection name is not unique, the collections in the different databases can have the same name
+		if nameInfo := r.collectionNames[collectionRecord.CollectionName]; nameInfo != nil && nameInfo.CollectionID == collectionID {
+			delete(r.collectionNames, collectionRecord.CollectionName)
+		}
 	}
 	var closeStreamFunc io.Closer
 	closeStreamFunc, ok = r.closeStreamFuncs[collectionID]
@@ -1133,7 +1136,11 @@ func (r *replicateChannelHandler) AddPartitionInfo(taskID string, collectionInfo
 		return nil
 	}
 	targetInfo.PartitionBarrierChan[partitionID] = model.NewOnceWriteChan(barrierChan)
-	sourcePChannel := r.collectionNames[collectionName].PChannel
+	// the name record may belong to (or have been removed with) the same name collection of another database
+	sourcePChannel := r.sourcePChannel
+	if nameInfo := r.collectionNames[collectionName]; nameInfo != nil && nameInfo.CollectionID == collectionID {
+		sourcePChannel = nameInfo.PChannel
+	}
 	collectionSeekPosition := r.collectionSeekPositions[collectionID]
 	partitionLog.Info("add partition info done")
 	r.recordLock.Unlock()
